@@ -100,6 +100,7 @@ type Exec struct {
 	rangedAt   map[*Term]bool
 	symCache   map[*Term][]string
 	stepApplied map[string]int
+	deferStack  map[*ssa.Function][]*ssa.Defer // defer statements of the entry block, in program order
 	curInstr    ssa.Instruction
 	obligedAt  map[*Term]*ssa.BasicBlock  // safety condition -> block where it was first obliged
 	skipped    int                        // safety conditions not re-queried (syntactically known)
@@ -678,6 +679,9 @@ func (x *Exec) runBody(fn *ssa.Function, st0 *State, params []Value, freevars []
 	for i, p := range fn.Params {
 		x.regs[p] = params[i]
 	}
+	if x.deferStack != nil {
+		delete(x.deferStack, fn)
+	}
 	for i, fv := range fn.FreeVars {
 		x.regs[fv] = freevars[i]
 	}
@@ -1113,7 +1117,7 @@ func (x *Exec) enterLoop(fn *ssa.Function, fc *FuncContract, li *loopInfo, st *S
 			for b := range li.blocks {
 				for _, in := range b.Instrs {
 					if ci, ok := in.(ssa.CallInstruction); ok {
-						if f, ok := ci.Common().Value.(*ssa.Function); ok && g.On[lastName(funcKey(f))] != nil {
+						if n := ghostCallName(ci.Common()); n != "" && g.On[n] != nil {
 							touched = true
 						}
 					}
